@@ -31,10 +31,10 @@ def run(ctx):
         return T.replay_one(ctx, 'C01', 'TSMEngine.MC_C01_quick.cfg')
     gen_cfg = f'TSMEngine.Gen_C01_{tier}.cfg'
     # 1. the design: contract invariants on every reachable abstract state
-    r = ctx.tlc_must_pass('TSMEngine', mc_cfg, timeout=sc * (100 if quick else 1200), coverage=True)
+    r = ctx.tlc_must_pass('TSMEngine', mc_cfg, timeout=sc * (400 if quick else 1500), coverage=True)
     ctx.check_coverage(r, T.ALL_ACTIONS)
     # 2. behaviours: one history per distinct abstract state of the generation configuration
-    g = ctx.tlc_must_pass('TSMEngine', gen_cfg, timeout=sc * (100 if quick else 900), dump=True)
+    g = ctx.tlc_must_pass('TSMEngine', gen_cfg, timeout=sc * (400 if quick else 1200), dump=True)
     hs, stats = T.histories(ctx, g.dump_path, want=250 if quick else 6000, budget_s=20 if quick else 420,
                             exact_leaves=not quick)
     T.require_actions(stats, T.ALL_ACTIONS)
@@ -43,7 +43,7 @@ def run(ctx):
     nconc = 1 if quick else 2
     cases = T.make_cases('C01', hs, nkeys, ntimes, lambda i: [i * nconc + j for j in range(nconc)])
     binary = ctx.go_build('engine')
-    res, lines = ctx.replay(binary, cases, par=1, timeout=sc * (150 if quick else 1500), case_timeout='90s')
+    res, lines = ctx.replay(binary, cases, par=1, timeout=sc * (600 if quick else 1700), case_timeout='90s')
     ctx.absorb(res, lines)
     if not quick:
         # half-applied writes (CacheWrite ; WriteAck under Engine.mu.RLock, parked at write.afterCacheWrite)
